@@ -134,12 +134,20 @@ fn xls_3d_sheet_through_xti() {
     assert!(g[0] == w[0]);
 }
 
-/// C06: PtgFunc (0x21) with any iftab near the end of the table must not panic
+/// C06: PtgFunc (0x21) with iftab == FTAB_LEN must not panic (guard `iftab >= FTAB_LEN`)
 #[kani::proof]
 #[kani::unwind(12)]
 fn xls_ptgfunc_iftab_total() {
     // (a symbolic iftab in 483..=487 did not finish: symbolic index into the table of &str) -- the boundary value, concretely
     let rgce = [3u8, 0, 0x21, 0xE5, 0x01]; // iftab = 485 = FTAB_LEN
+    let r = parse_formula(&rgce, &[], &[], &[], &xenc());
+    assert!(r.is_err());
+}
+/// C06: PtgFuncVar (0x22) with argc == 0 and an iftab outside the table must not panic (fails: FTAB[iftab] is indexed unchecked)
+#[kani::proof]
+#[kani::unwind(12)]
+fn xls_ptgfuncvar_iftab_total() {
+    let rgce = [4u8, 0, 0x22, 0, 0xE5, 0x01];
     let _ = parse_formula(&rgce, &[], &[], &[], &xenc());
 }
 /// C06: PtgRef to any row must not panic (rw = 0xFFFF is row 65536, the last row of a BIFF8 sheet)
